@@ -46,6 +46,10 @@ type scriptedErr struct{ idx int }
 
 func (e *scriptedErr) Error() string { return fmt.Sprintf("scripted error %d", e.idx) }
 
+type sameErr struct{ _ int }
+
+func (e *sameErr) Error() string { return "dial tcp 127.0.0.1:1: connect: connection refused" }
+
 type outcome struct {
 	hasResp    bool
 	code       int
@@ -68,6 +72,9 @@ type scripted struct {
 	starts []time.Time
 	ends   []time.Time
 	lat    time.Duration
+	// overlap: the first call announces itself on entered and returns only when gate is closed
+	entered chan struct{}
+	gate    chan struct{}
 }
 
 func (s *scripted) RoundTrip(req *http.Request) (*http.Response, error) {
@@ -77,6 +84,10 @@ func (s *scripted) RoundTrip(req *http.Request) (*http.Response, error) {
 	}
 	i := s.calls
 	s.calls++
+	if i == 0 && s.gate != nil {
+		close(s.entered)
+		<-s.gate
+	}
 	var o outcome
 	idx := i
 	if i < len(s.script) {
@@ -102,6 +113,8 @@ func (s *scripted) RoundTrip(req *http.Request) (*http.Response, error) {
 			err = &url.Error{Op: "Get", URL: "http://example.invalid/x", Err: context.DeadlineExceeded}
 		case 't':
 			err = &url.Error{Op: "Get", URL: "http://example.invalid/x", Err: &timeoutErr{idx}}
+		case 's': // every such error has the same text (and type): only its identity tells the attempts apart
+			err = &sameErr{}
 		default:
 			err = &scriptedErr{idx}
 		}
@@ -120,7 +133,7 @@ func parseScript(s string) []outcome {
 		switch {
 		case t == "e":
 			out = append(out, outcome{hasErr: true})
-		case t == "ec" || t == "ed" || t == "et":
+		case t == "ec" || t == "ed" || t == "et" || t == "es":
 			out = append(out, outcome{hasErr: true, errKind: t[1]})
 		case strings.HasPrefix(t, "E"):
 			c, err := strconv.Atoi(t[1:])
@@ -161,6 +174,9 @@ func runCase(line string) string {
 	cur := &scripted{}
 	// one middleware instance for all requests of the case; the transport behind it serves the current script
 	var base http.RoundTripper = middleware.RoundTripper(func(r *http.Request) (*http.Response, error) {
+		if s, ok := r.Context().Value(wireKey{}).(*scripted); ok {
+			return s.RoundTrip(r)
+		}
 		return cur.RoundTrip(r)
 	})
 	if prof.inner >= 0 {
@@ -193,6 +209,33 @@ func runCase(line string) string {
 		rt = shoot.NewRestConf("", 0, false, nil).With(opts...).BuildMiddleware()
 	}
 	var parts []string
+	if prof.overlap && len(scripts) == 2 {
+		// two requests through ONE instance at the same time: A's first attempt is held inside the wire
+		// while B runs to completion, then A carries on; each is observed on its own wire
+		mk := func(one string) *scripted {
+			return &scripted{script: parseScript(one), resps: map[*http.Response]int{}, errs: map[error]int{}, lat: prof.lat}
+		}
+		sA, sB := mk(scripts[0]), mk(scripts[1])
+		sA.entered, sA.gate = make(chan struct{}), make(chan struct{})
+		doneA := make(chan string, 1)
+		go func() {
+			defer func() {
+				if r := recover(); r != nil {
+					doneA <- fmt.Sprintf("PANIC %v", r)
+				}
+			}()
+			doneA <- observe(rt, sA, d, prof)
+		}()
+		select {
+		case <-sA.entered:
+		case p := <-doneA: // no call at all (n < 0)
+			close(sA.gate)
+			return id + " " + p + " ; " + observe(rt, sB, d, prof)
+		}
+		pB := observe(rt, sB, d, prof)
+		close(sA.gate)
+		return id + " " + <-doneA + " ; " + pB
+	}
 	for _, one := range scripts {
 		s := &scripted{script: parseScript(one), resps: map[*http.Response]int{}, errs: map[error]int{}, lat: prof.lat}
 		cur = s
@@ -208,6 +251,7 @@ type profile struct {
 	lat          time.Duration
 	outer, inner int  // RetryMiddleware(k, d) stacked outside / inside the instance under test; -1 = none
 	logOut       bool // LoggingMiddleware outside everything (RestConf: EnableLogging)
+	overlap      bool // two scripts = two OVERLAPPING requests through one instance (see runCase)
 	viaBuild     bool // assemble the stack through shoot.Use / RestConf.BuildMiddleware
 	logIn        bool // LoggingMiddleware between the instance under test and what is below it
 }
@@ -242,6 +286,8 @@ func parseProfile(s string) profile {
 			p.logOut = true
 		case t == "viabuild":
 			p.viaBuild = true
+		case t == "overlap":
+			p.overlap = true
 		case strings.HasPrefix(t, "lat"):
 			us, err := strconv.Atoi(t[3:])
 			if err != nil {
@@ -269,7 +315,7 @@ func observe(rt http.RoundTripper, s *scripted, d time.Duration, prof profile) s
 		defer cancel()
 		req = req.WithContext(ctx)
 	}
-	if prof.viaBuild {
+	if prof.viaBuild || prof.overlap {
 		req = req.WithContext(context.WithValue(req.Context(), wireKey{}, s))
 	}
 	start := time.Now()
